@@ -1,2 +1,10 @@
-(* C03 -- placeholder while the proofs are being built *)
-From Verif Require Import Base.GoInt Proto.Ext Generated.ProtoGen Proto.Model.
+(* C03 -- proto: Size(v) == len(Marshal(v)), Marshal never fails, round trip.
+   (The round-trip theorem is in preparation in Proto/RoundTrip.v.) *)
+From Verif Require Import Base.GoInt Proto.Ext Generated.ProtoGen Proto.Model Proto.PrimSpec Proto.Spec Proto.EncProofs.
+
+(* Marshal succeeds and returns exactly Size(v) bytes, for every value of the universe *)
+Theorem marshal_never_fails : marshal_never_fails_statement.
+Proof. exact EncProofs.marshal_never_fails. Qed.
+
+Theorem encode_exact : encode_exact_statement.
+Proof. exact EncProofs.encode_exact. Qed.
